@@ -76,6 +76,22 @@ Theorem C14_isolation : forall s o u, In u (subs s) ->
 Proof. exact isolation. Qed.
 Print Assumptions C14_isolation.
 
+(* Known finding KF-C14-1. The property asks that the unsubscription of one subscription leaves every subscription made
+   with a DIFFERENT REQUEST alone. The code identifies a subscription by hash(request); the model takes that
+   identifier as an input (r_key). What holds is the clause for subscriptions with a different IDENTIFIER (_partial,
+   the Unsubscribe case of C14_isolation); the full clause is false as soon as two different requests carry one
+   identifier (_refuted: the requests of the witness differ in the filter reference value -1 / -2, which CPython
+   hashes alike; the harness replays it on the code). *)
+Definition C14_unsubscribe_spares_other_requests_full : Prop := unsubscribe_spares_other_requests_stmt false.
+
+Theorem C14_unsubscribe_spares_other_requests_partial : unsubscribe_spares_other_requests_stmt true.
+Proof. exact unsubscribe_spares_other_requests_partial. Qed.
+Print Assumptions C14_unsubscribe_spares_other_requests_partial.
+
+Theorem C14_unsubscribe_spares_other_requests_refuted : ~ C14_unsubscribe_spares_other_requests_full.
+Proof. exact unsubscribe_spares_other_requests_refuted. Qed.
+Print Assumptions C14_unsubscribe_spares_other_requests_refuted.
+
 (* invalid requests are refused without effect, with a code that names an invalid field *)
 Theorem C14_invalid_refused_with_code : forall s r,
   let c := validate s r in
